@@ -95,3 +95,112 @@ def unwindset(ntok=24, msglen=170):
           '_ZN4FIX89fast_atoiIiEET_PKcc.0:%d' % (FLD + 1), '_ZN4FIX89fast_atoiIjEET_PKcc.0:%d' % (FLD + 1), '_ZN4FIX89fast_atoiItEET_PKcc.0:%d' % (FLD + 1),
           M_EXT + '.0:%d' % (msglen + 2)]
     return us
+
+# ------------------------------------------------------------------ harness construction / replay shared by C01, C02 (ordering), C11
+HDR = [('h', 34, 'int', 1, 0), ('h', 49, 'str', 1, 0), ('h', 56, 'str', 1, 0)]
+def hdr(ts=1, seq=(1, 0), order=None):
+    """the four mandatory header fields (34 MsgSeqNum, 49, 56, 52 SendingTime); ts: 1 fixed instant, 0 symbolic"""
+    f = [('h', 34, 'int', seq[0], seq[1]), ('h', 49, 'str', 1, 0), ('h', 56, 'str', 1, 0), ('h', 52, 'ts', ts, 0)]
+    return [f[i] for i in order] if order else f
+
+SHAPES = {
+    # name: (message 0 Heartbeat / 1 Order, fields in insertion order, group elements)
+    'hb':      (0, hdr() + [('b', 63, 'str', 2, 0)], 0),
+    'basic':   (1, hdr() + [('b', 11, 'str', 2, 0), ('b', 54, 'char', 0, 0), ('b', 38, 'int', 5, 1), ('b', 43, 'bool', 0, 0)], 0),
+    'basic_r': (1, [('b', 43, 'bool', 0, 0), ('b', 38, 'int', 5, 1), ('b', 54, 'char', 0, 0), ('b', 11, 'str', 2, 0)] + hdr(order=[3, 2, 1, 0]), 0),
+    'tsdata':  (1, hdr(ts=0) + [('b', 11, 'str', 1, 0), ('b', 61, 'cint', 2, 0), ('b', 62, 'data', 2, 0)], 0),
+    'group1':  (1, hdr() + [('b', 11, 'str', 1, 0), ('b', 33, 'cint', 1, 0), ('g0', 36, 'int', 2, 0), ('g0', 58, 'str', 2, 0)], 1),
+    'group2':  (1, hdr() + [('b', 33, 'cint', 2, 0), ('b', 11, 'str', 1, 0), ('g0', 58, 'str', 1, 0), ('g0', 36, 'int', 1, 0), ('g1', 36, 'int', 3, 1)], 2),
+    'bigint':  (1, hdr(seq=(10, 0)) + [('b', 11, 'str', 3, 0), ('b', 38, 'int', 10, 1)], 0),
+    'ts2':     (1, hdr(ts=0) + [('b', 11, 'str', 1, 0), ('b', 60, 'ts', 0, 0)], 0),
+    'all':     (1, [('b', 60, 'ts', 1, 0), ('b', 62, 'data', 1, 0), ('b', 61, 'cint', 1, 0), ('b', 43, 'bool', 0, 0), ('b', 38, 'int', 1, 0), ('b', 54, 'char', 0, 0), ('b', 11, 'str', 1, 0)] + hdr(order=[1, 3, 0, 2]), 0),
+}
+
+def us_main(n=12, cap=170): return ['main.%d:%d' % (i, cap + 2) for i in range(n)] + ['same_bytes.0:%d' % (cap + 2), 'l3_check_wire.0:8', 'l3_check_wire.1:%d' % (cap + 2)]
+
+def harness(ctx, name, cfile, shape, defs=(), *, functions=(), desc='', tier='quick', timeout=900, cap=170, extra_bounds=''):
+    msg, fields, nel = SHAPES[shape]
+    shape_header(ctx, shape, msg, fields, nel)
+    d = list(defs) + ['L3_SHAPE="shape_%s.h"' % shape, 'VF_GLOBAL_INIT=' + GINIT.replace('.', '_2e'), 'VF_MAXCOPY=%d' % FLD, 'L3_CAP=%d' % cap]
+    h = Harness(name, VERIF + '/harness/' + cfile, defines=d, unwind=70, unwindset=unwindset(msglen=cap) + us_main(cap=cap), timeout=timeout, mem_gb=12, nochecks=True,
+                functions=FUN_BUILD + list(functions), stubs=STUBS, tier=tier, desc=desc,
+                bounds='message %s, %s; ints over their whole digit class (sign x number of decimal digits), string bytes any but SOH/NUL, data bytes any%s; FIX8_MAX_FLD_LENGTH scaled to %d; '
+                       'CBMC memory-safety instrumentation off (memory safety of the codec is C03)%s'
+                       % ('Order' if msg else 'Heartbeat', describe(fields, nel), '', FLD, extra_bounds))
+    h.shape = shape
+    return ctx.add(h)
+
+def replay_exe(ctx):
+    g = gen(ctx)
+    return ctx.native('l3replay', ['replay/l3_replay.cpp'], flags=('-O1', '-g', '-fsanitize=address,undefined', '-fno-sanitize=alignment,vptr', '-fno-access-control', '-I' + g, '-DVF_L3_SCHEMA=0x%s' % schema_hash()[:8]),
+                      libs=['-L' + REPO + '/runtime/.libs', '-lfix8', '-Wl,-rpath,' + REPO + '/runtime/.libs'])
+
+def cx_args(c, shape):
+    """command-line field list of the native replay from a counterexample (cx_* ghosts) of a harness over `shape`"""
+    msg, fields, nel = SHAPES[shape]
+    def arr(k, i, dflt=0):
+        v = c.get(k) or []
+        return v[i] if i < len(v) else dflt
+    out = []
+    for i, (comp, tag, kind, arg, neg) in enumerate(fields):
+        ci = comp_id(comp)
+        if kind in ('int',): out.append('%d:%d:i:%d' % (ci, tag, _s32(arr('cx_int', i))))
+        elif kind == 'cint': out.append('%d:%d:i:%d' % (ci, tag, arg))
+        elif kind in ('str', 'data'):
+            row = arr('cx_str', i, []) or []
+            b = bytes((int(row[k]) & 255) if k < len(row) else 0 for k in range(arg))
+            out.append('%d:%d:s:%s' % (ci, tag, b.hex()))
+        elif kind == 'char': out.append('%d:%d:c:%d' % (ci, tag, _s8(arr('cx_chr', i))))
+        elif kind == 'bool': out.append('%d:%d:b:%d' % (ci, tag, int(arr('cx_bool', i)) & 1))
+        elif kind == 'ts': out.append('%d:%d:t:%d' % (ci, tag, int(arr('cx_ticks', i)) if arg == 0 or arr('cx_ticks', i) else 1362365070000000000))
+    return [str(msg), str(nel)] + out
+def _s32(v): v = int(v) & 0xffffffff; return v - (1 << 32) if v >> 31 else v
+def _s8(v): v = int(v) & 0xff; return v - 256 if v >> 7 else v
+
+def run_replay(ctx, mode, args):
+    r = sh([replay_exe(ctx), mode] + list(args), env=dict(os.environ, ASAN_OPTIONS='detect_leaks=0:abort_on_error=0', UBSAN_OPTIONS='halt_on_error=1:print_stacktrace=0'))
+    return r.returncode, r.stdout
+
+def wire_problem(e1, shape, c):
+    """independent (Python) check of the C02 clauses on the bytes the native encoder produced for the shape and the counterexample's values:
+    8, 9, 35 first; BodyLength = bytes between the end of the BodyLength field and the start of 10=; CheckSum = byte sum mod 256, three digits;
+    tags in schema position order: header, body, group = count then elements each starting with the group's first field (36), trailer"""
+    msg, fields, nel = SHAPES[shape]
+    if not e1.endswith(b'\x01'): return 'does not end with SOH'
+    toks = [t.split(b'=', 1) for t in e1[:-1].split(b'\x01')]
+    if any(len(t) != 2 or not t[0].isdigit() for t in toks):
+        # a data value may contain SOH: re-split around the Length/data pair
+        tags = None
+    tags = []
+    i = 0; raw = e1
+    while i < len(raw):
+        j = raw.find(b'=', i)
+        if j < 0 or not raw[i:j].isdigit(): return 'malformed tag at offset %d' % i
+        tag = int(raw[i:j])
+        if tags and tags[-1][0] == 61 and tag == 62:
+            n = int(tags[-1][1]); val = raw[j + 1:j + 1 + n]; k = j + 1 + n
+            if raw[k:k + 1] != b'\x01': return 'data field not followed by SOH'
+        else:
+            k = raw.find(b'\x01', j)
+            if k < 0: return 'unterminated field'
+            val = raw[j + 1:k]
+        tags.append((tag, val, i)); i = k + 1
+    if [t for t, v, o in tags[:3]] != [8, 9, 35] or tags[0][1] != b'FIX.4.2': return 'does not start with BeginString, BodyLength, MsgType'
+    if tags[-1][0] != 10 or len(tags[-1][1]) != 3 or not tags[-1][1].isdigit(): return 'does not end with a three-digit CheckSum'
+    if not tags[1][1].isdigit() or int(tags[1][1]) != tags[-1][2] - tags[2][2]: return 'BodyLength %r is not the payload length %d' % (tags[1][1], tags[-1][2] - tags[2][2])
+    if int(tags[-1][1]) != sum(raw[:tags[-1][2]]) & 255: return 'CheckSum %r is not the byte sum %d' % (tags[-1][1], sum(raw[:tags[-1][2]]) & 255)
+    posh = [34, 49, 56, 52]; posb = [11, 54, 38, 44, 43, 60, 61, 62, 33] if msg else [63]; posg = [36, 58]
+    want = []
+    for comp, tab in (('h', posh), ('b', posb)):
+        for t in tab:
+            if any(f[0] == comp and f[1] == t for f in fields):
+                want.append(t)
+                if comp == 'b' and t == 33:
+                    for e in range(nel): want += [g for g in posg if any(f[0] == 'g%d' % e and f[1] == g for f in fields)]
+    got = [t for t, v, o in tags[3:-1]]
+    if got != want: return 'field order %s, expected %s' % (got, want)
+    return None
+
+def short(out, n=400):
+    keep = [l for l in out.splitlines() if l.startswith(('RESULT', '==', 'SUMMARY', 'COUNTS')) or 'runtime error' in l]
+    return (' | '.join(keep) or out.strip()[-n:].replace('\n', ' | '))[:n]
